@@ -227,6 +227,8 @@ def main(rep, tier):
     f = F.load(("async", "http"))
     rep.configs.append({"features": "async,http", "profile": "debug", "bodies": len(f.bodies)})
     check.guard(rep, "R14", run, f)
+    import check as _c
+    _c.witnesses(rep, "C14", f)
     return rep.finish(
         "Obligations of the no-lost-wakeup argument (register before the temporary Arc dies, Drop wakes unconditionally, same waker field), "
         "shutdown ordering (notify all, then wait; runner consumed), and the cancellation structure of run() (only the preamble phase is "
